@@ -185,6 +185,44 @@ def r3_reset_all(c, facts):
         c.bad(R, 'folder-eval-keeps-old-state', 'Folder::eval no longer resets mods/spec before reloading: a failed reload leaves the previous program in place')
 
 
+def changes_in_order(c, facts, R):
+    """the content changes of one notification are applied one after the other, in the order sent, each against the text
+    produced by the previous one"""
+    ch = c.anchor(R, 'oal_client::lsp::Workspace::change')
+    idx = MF.defs_index(ch)
+    BAD = {'rev', 'skip', 'take', 'filter', 'step_by', 'sort', 'sort_by', 'sort_by_key', 'sorted', 'rposition', 'last', 'nth', 'collect', 'map'}
+    narrowed = set()
+    loops = 0
+    for b, t in P.call_blocks(ch, 'Iterator::next'):
+        sl = MF.slice_back(ch, t['args'][0]['l'], idx)
+        names = {P.strip(n).split('::')[-1] for n, _, _ in sl['calls']}
+        src_changes = False
+        for l in sl['locals']:
+            for kind, bi, st in idx.get(l, []):
+                if kind == 'assign' and st['rv']['r'] == 'use' and 'content_changes' in MF.field_path(st['rv']['op']):
+                    src_changes = True
+        for n2, t2, _ in sl['calls']:
+            for a in t2['args']:
+                if 'content_changes' in MF.field_path(a):
+                    src_changes = True
+        if src_changes:
+            loops += 1
+            narrowed |= names & BAD
+    if loops == 0:
+        c.bad(R, 'changes-loop-not-found', 'Workspace::change no longer iterates p.content_changes')
+    elif narrowed:
+        c.bad(R, 'changes-not-applied-in-order:%s' % ','.join(sorted(narrowed)), 'Workspace::change does not apply the content changes in the order sent (%s): each range refers to the text produced by the previous change' % ', '.join(sorted(narrowed)))
+    else:
+        c.ok(R, {'content_changes': 'applied in the order sent'})
+    # conversion and application are interleaved: position_to_utf8 is called inside the loop, on the current text
+    conv = P.call_blocks(ch, 'unicode::position_to_utf8')
+    rr = P.call_blocks(ch, 'String::replace_range')
+    if conv and rr and all(rr[0][0] in ch.reachable_from(b) and b in ch.reachable_from(rr[0][1]['target']) for b, t in conv):
+        c.ok(R, {'conversion': 'each range is converted against the text left by the previous change'})
+    elif conv and rr:
+        c.bad(R, 'ranges-converted-before-applying', 'Workspace::change converts the ranges of a notification before applying them: later ranges are resolved against stale text')
+
+
 def r4_change(c, facts):
     R = c.rule('C15.R4', 'CHANGE: incremental edits use converted byte offsets; full edits replace the text')
     ch = c.anchor(R, 'oal_client::lsp::Workspace::change')
@@ -246,6 +284,7 @@ def r4_change(c, facts):
         c.ok(R, {'full sync': '*text = change.text when no range is given'})
     else:
         c.bad(R, 'full-change-not-applied', 'a change without range no longer replaces the whole document')
+    changes_in_order(c, facts, R)
     c16.run_units(c, facts, rule_prefix='C15.U', scope=['oal_client::lsp::Workspace::change', 'oal_client::lsp::unicode::position_to_utf8'],
                   must=['oal_client::lsp::Workspace::change', 'oal_client::lsp::unicode::position_to_utf8'])
     # floors of the shared units rule are sized for C16's scope: relax for this restricted scope
